@@ -1,5 +1,8 @@
 import Toq.Model.Discrim
 import Toq.Proofs.Cert
+import Mathlib.LinearAlgebra.UnitaryGroup
+import Mathlib.Analysis.Matrix.HermitianFunctionalCalculus
+import Mathlib.Analysis.Matrix.Spectrum
 /-!
 # Helper lemmas for C10 (state discrimination): weak duality over an arbitrary finite index type and
 soundness of the function-indexed core checkers of `Toq.Model.Discrim`.
@@ -151,5 +154,402 @@ theorem checkUnambDualFn_sound (G : EMat k k) (p : Fin k → Rat) (Z LZ : EMat k
     · rw [← toM_mul, ← re_trace]
       exact congrArg _ (Option.some.inj h)
   · exact absurd h (by simp)
+
+end Toq.Discrim
+
+/-! # Extensions: elementary bounds, perfect discrimination, invariances, PGM, Helstrom, unambiguous closed forms
+
+(helper lemmas of the second group of theorems of `Toq/Properties/C10.lean`; all names carry the prefixes `me…` / `ua…`
+so that they do not clash with the analogous lemmas of `Toq.Excl` when both namespaces are open) -/
+
+set_option linter.unusedSectionVars false
+
+namespace Toq.Discrim
+
+section GenericExt
+variable {ι κ : Type*} [Fintype ι] [DecidableEq ι] [Fintype κ]
+
+/-! ### Elementary bounds -/
+
+omit [DecidableEq ι] in
+theorem me_psd_smul {A : Matrix ι ι ℂ} (hA : A.PosSemidef) {c : ℝ} (hc : 0 ≤ c) :
+    ((c : ℂ) • A).PosSemidef :=
+  hA.smul (by exact_mod_cast hc)
+
+omit [DecidableEq ι] [Fintype ι] in
+theorem me_sum_sub_eq_erase [DecidableEq κ] (A : κ → Matrix ι ι ℂ) (i : κ) :
+    ∑ j, A j - A i = ∑ j ∈ Finset.univ.erase i, A j := by
+  rw [← Finset.add_sum_erase _ _ (Finset.mem_univ i)]; abel
+
+/-- `Y = Σ_j p_j ρ_j` is dual feasible for PSD states and non-negative priors -/
+theorem me_sum_dual_feasible (ρ : κ → Matrix ι ι ℂ) (p : κ → ℝ) (hρ : ∀ i, (ρ i).PosSemidef)
+    (hp : ∀ i, 0 ≤ p i) (i : κ) : ((∑ j, (p j : ℂ) • ρ j) - (p i : ℂ) • ρ i).PosSemidef := by
+  classical
+  rw [me_sum_sub_eq_erase]
+  exact Matrix.posSemidef_sum _ fun j _ => me_psd_smul (hρ j) (hp j)
+
+omit [DecidableEq ι] in
+theorem me_trace_sum_smul (ρ : κ → Matrix ι ι ℂ) (p : κ → ℝ) :
+    (∑ j, (p j : ℂ) • ρ j).trace.re = ∑ j, p j * (ρ j).trace.re := by
+  rw [Matrix.trace_sum, Complex.re_sum]
+  refine Finset.sum_congr rfl fun j _ => ?_
+  rw [Matrix.trace_smul, smul_eq_mul, Complex.re_ofReal_mul]
+
+/-- every POVM value is at most `Σ_j p_j tr ρ_j` -/
+theorem me_le_sum_trace (ρ : κ → Matrix ι ι ℂ) (p : κ → ℝ) (M : κ → Matrix ι ι ℂ)
+    (hρ : ∀ i, (ρ i).PosSemidef) (hp : ∀ i, 0 ≤ p i) (hM : ∀ i, (M i).PosSemidef)
+    (hsum : ∑ i, M i = 1) :
+    ∑ i, p i * (ρ i * M i).trace.re ≤ ∑ j, p j * (ρ j).trace.re := by
+  have := minErr_weak_duality_gen ρ p M _ hM hsum (me_sum_dual_feasible ρ p hρ hp)
+  rwa [me_trace_sum_smul] at this
+
+/-- every family of PSD operators has non-negative value on PSD states with non-negative weights -/
+theorem me_nonneg (ρ : κ → Matrix ι ι ℂ) (p : κ → ℝ) (M : κ → Matrix ι ι ℂ)
+    (hρ : ∀ i, (ρ i).PosSemidef) (hp : ∀ i, 0 ≤ p i) (hM : ∀ i, (M i).PosSemidef) :
+    0 ≤ ∑ i, p i * (ρ i * M i).trace.re :=
+  Finset.sum_nonneg fun i _ => mul_nonneg (hp i) (psd_trace_mul_nonneg (hρ i) (hM i))
+
+/-! ### The measurement "always answer `j`" -/
+
+/-- the measurement "always answer `j`" -/
+def meConstPovm [DecidableEq κ] (j : κ) : κ → Matrix ι ι ℂ := fun i => if i = j then 1 else 0
+
+omit [Fintype ι] [Fintype κ] in
+theorem meConstPovm_psd [DecidableEq κ] (j i : κ) : (meConstPovm (ι := ι) j i).PosSemidef := by
+  unfold meConstPovm
+  split
+  · exact Matrix.PosSemidef.one
+  · exact Matrix.PosSemidef.zero
+
+omit [Fintype ι] in
+theorem meConstPovm_sum [DecidableEq κ] (j : κ) : ∑ i, meConstPovm (ι := ι) j i = 1 := by
+  unfold meConstPovm
+  rw [Finset.sum_ite_eq' Finset.univ j]
+  simp
+
+theorem meConstPovm_value [DecidableEq κ] (ρ : κ → Matrix ι ι ℂ) (p : κ → ℝ) (j : κ) :
+    ∑ i, p i * (ρ i * meConstPovm j i).trace.re = p j * (ρ j).trace.re := by
+  have : ∀ i, p i * (ρ i * meConstPovm j i).trace.re = if i = j then p j * (ρ j).trace.re else 0 := by
+    intro i
+    unfold meConstPovm
+    split
+    · next h => subst h; simp
+    · simp
+  simp only [this]
+  rw [Finset.sum_ite_eq' Finset.univ j]
+  simp
+
+/-! ### Perfect discrimination with orthogonal projectors -/
+
+/-- the measurement built from orthogonal projectors `Π_i`; the remainder `1 − Σ Π_i` is added to
+outcome `j0` -/
+def meProjPovm [DecidableEq κ] (Pr : κ → Matrix ι ι ℂ) (j0 : κ) : κ → Matrix ι ι ℂ :=
+  fun i => Pr i + if i = j0 then 1 - ∑ l, Pr l else 0
+
+theorem me_sum_proj_idem [DecidableEq κ] (Pr : κ → Matrix ι ι ℂ) (hI : ∀ i, Pr i * Pr i = Pr i)
+    (hO : ∀ i j, i ≠ j → Pr i * Pr j = 0) : (∑ l, Pr l) * (∑ l, Pr l) = ∑ l, Pr l := by
+  rw [Finset.sum_mul]
+  refine Finset.sum_congr rfl fun i _ => ?_
+  rw [Finset.mul_sum, Finset.sum_eq_single i]
+  · exact hI i
+  · intro j _ hj; exact hO i j (Ne.symm hj)
+  · intro h; exact absurd (Finset.mem_univ i) h
+
+theorem me_rest_psd [DecidableEq κ] (Pr : κ → Matrix ι ι ℂ) (hH : ∀ i, (Pr i).IsHermitian)
+    (hI : ∀ i, Pr i * Pr i = Pr i) (hO : ∀ i j, i ≠ j → Pr i * Pr j = 0) :
+    (1 - ∑ l, Pr l).PosSemidef := by
+  have hS : (∑ l, Pr l).IsHermitian := isSelfAdjoint_sum _ fun i _ => hH i
+  have hR : (1 - ∑ l, Pr l).IsHermitian := Matrix.isHermitian_one.sub hS
+  have h2 : (1 - ∑ l, Pr l)ᴴ * (1 - ∑ l, Pr l) = 1 - ∑ l, Pr l := by
+    rw [hR.eq, Matrix.sub_mul, Matrix.mul_sub, Matrix.mul_sub, Matrix.one_mul, Matrix.mul_one,
+      Matrix.one_mul, me_sum_proj_idem Pr hI hO]
+    abel
+  rw [← h2]
+  exact Matrix.posSemidef_conjTranspose_mul_self _
+
+theorem meProjPovm_psd [DecidableEq κ] (Pr : κ → Matrix ι ι ℂ) (j0 : κ)
+    (hH : ∀ i, (Pr i).IsHermitian)
+    (hI : ∀ i, Pr i * Pr i = Pr i) (hO : ∀ i j, i ≠ j → Pr i * Pr j = 0) (i : κ) :
+    (meProjPovm Pr j0 i).PosSemidef := by
+  have hP : (Pr i).PosSemidef := by
+    have : (Pr i)ᴴ * Pr i = Pr i := by rw [(hH i).eq, hI i]
+    rw [← this]
+    exact Matrix.posSemidef_conjTranspose_mul_self _
+  unfold meProjPovm
+  split
+  · exact hP.add (me_rest_psd Pr hH hI hO)
+  · simpa using hP
+
+omit [Fintype ι] in
+theorem meProjPovm_sum [DecidableEq κ] (Pr : κ → Matrix ι ι ℂ) (j0 : κ) :
+    ∑ i, meProjPovm Pr j0 i = 1 := by
+  unfold meProjPovm
+  rw [Finset.sum_add_distrib, Finset.sum_ite_eq' Finset.univ j0]
+  simp
+
+theorem meProjPovm_mul [DecidableEq κ] (ρ Pr : κ → Matrix ι ι ℂ) (j0 : κ)
+    (hO : ∀ i j, i ≠ j → Pr i * Pr j = 0)
+    (hρ : ∀ i, ρ i * Pr i = ρ i) (i : κ) : ρ i * meProjPovm Pr j0 i = ρ i := by
+  unfold meProjPovm
+  split
+  · next h =>
+    subst h
+    have : ρ i * ∑ l, Pr l = ρ i := by
+      rw [Finset.mul_sum, Finset.sum_eq_single i]
+      · exact hρ i
+      · intro j _ hj
+        rw [← hρ i, Matrix.mul_assoc, hO i j (Ne.symm hj), Matrix.mul_zero]
+      · intro h; exact absurd (Finset.mem_univ i) h
+    rw [Matrix.mul_add, Matrix.mul_sub, Matrix.mul_one, this, hρ i]
+    abel
+  · rw [add_zero, hρ i]
+
+/-! ### Unitary conjugation and relabelling -/
+
+omit [DecidableEq ι] in
+theorem me_conj_psd (U A : Matrix ι ι ℂ) (hA : A.PosSemidef) : (U * A * Uᴴ).PosSemidef :=
+  hA.mul_mul_conjTranspose_same U
+
+omit [DecidableEq ι] in
+theorem me_conj_sum (U : Matrix ι ι ℂ) (M : κ → Matrix ι ι ℂ) :
+    ∑ i, U * M i * Uᴴ = U * (∑ i, M i) * Uᴴ := by
+  rw [Matrix.mul_sum, Matrix.sum_mul]
+
+theorem me_conj_trace_mul (U A B : Matrix ι ι ℂ) (hU : Uᴴ * U = 1) :
+    ((U * A * Uᴴ) * (U * B * Uᴴ)).trace = (A * B).trace := by
+  have h : (U * A * Uᴴ) * (U * B * Uᴴ) = U * (A * B) * Uᴴ := by
+    calc (U * A * Uᴴ) * (U * B * Uᴴ) = U * A * (Uᴴ * U) * B * Uᴴ := by
+          simp only [Matrix.mul_assoc]
+      _ = U * (A * B) * Uᴴ := by rw [hU, Matrix.mul_one]; simp only [Matrix.mul_assoc]
+  rw [h, Matrix.trace_mul_comm, ← Matrix.mul_assoc, hU, Matrix.one_mul]
+
+theorem me_conj_conj (U A : Matrix ι ι ℂ) (hU : Uᴴ * U = 1) : Uᴴ * (U * A * Uᴴ) * Uᴴᴴ = A := by
+  rw [Matrix.conjTranspose_conjTranspose]
+  calc Uᴴ * (U * A * Uᴴ) * U = (Uᴴ * U) * A * (Uᴴ * U) := by simp only [Matrix.mul_assoc]
+    _ = A := by rw [hU, Matrix.one_mul, Matrix.mul_one]
+
+/-! ### Pretty good measurement -/
+
+theorem me_pgm_psd (ρ : κ → Matrix ι ι ℂ) (p : κ → ℝ) (S : Matrix ι ι ℂ)
+    (hρ : ∀ i, (ρ i).PosSemidef) (hp : ∀ i, 0 ≤ p i) (hS : Sᴴ = S) (i : κ) :
+    (S * ((p i : ℂ) • ρ i) * S).PosSemidef := by
+  have := (me_psd_smul (hρ i) (hp i)).mul_mul_conjTranspose_same S
+  rwa [hS] at this
+
+omit [DecidableEq ι] in
+theorem me_pgm_sum (ρ : κ → Matrix ι ι ℂ) (p : κ → ℝ) (S : Matrix ι ι ℂ) :
+    ∑ i, S * ((p i : ℂ) • ρ i) * S = S * (∑ i, (p i : ℂ) • ρ i) * S := by
+  rw [Matrix.mul_sum, Matrix.sum_mul]
+
+end GenericExt
+
+end Toq.Discrim
+
+namespace Toq.Discrim
+
+section GenericExt2
+variable {ι κ : Type*} [Fintype ι] [DecidableEq ι] [Fintype κ]
+
+/-! ### Support projector of a Hermitian matrix (functional calculus) -/
+
+/-- `A⁺`: the inverse on the support (`x ↦ x⁻¹` applied to the spectrum, `0⁻¹ = 0`) -/
+noncomputable def mePinv (A : Matrix ι ι ℂ) : Matrix ι ι ℂ := cfc (fun x : ℝ => x⁻¹) A
+
+/-- the support projector `A A⁺` -/
+noncomputable def meSupp (A : Matrix ι ι ℂ) : Matrix ι ι ℂ := A * mePinv A
+
+theorem meSupp_eq_cfc {A : Matrix ι ι ℂ} (hA : A.IsHermitian) :
+    meSupp A = cfc (fun x : ℝ => x * x⁻¹) A := by
+  have hA' : IsSelfAdjoint A := hA
+  unfold meSupp mePinv
+  rw [cfc_mul (fun x : ℝ => x) (fun x : ℝ => x⁻¹) A (A.finite_real_spectrum.continuousOn _)
+    (A.finite_real_spectrum.continuousOn _), cfc_id' ℝ A]
+
+theorem meSupp_isHermitian {A : Matrix ι ι ℂ} (hA : A.IsHermitian) : (meSupp A).IsHermitian := by
+  rw [meSupp_eq_cfc hA]
+  exact cfc_predicate (fun x : ℝ => x * x⁻¹) A
+
+theorem meSupp_idem {A : Matrix ι ι ℂ} (hA : A.IsHermitian) : meSupp A * meSupp A = meSupp A := by
+  rw [meSupp_eq_cfc hA, ← cfc_mul (fun x : ℝ => x * x⁻¹) (fun x : ℝ => x * x⁻¹) A
+    (A.finite_real_spectrum.continuousOn _) (A.finite_real_spectrum.continuousOn _)]
+  congr 1
+  funext x
+  by_cases hx : x = 0
+  · simp [hx]
+  · field_simp
+
+theorem mul_meSupp {A : Matrix ι ι ℂ} (hA : A.IsHermitian) : A * meSupp A = A := by
+  have hA' : IsSelfAdjoint A := hA
+  have h1 : cfc (fun x : ℝ => x * (x * x⁻¹)) A = cfc (fun x : ℝ => x) A := by
+    congr 1
+    funext x
+    by_cases hx : x = 0
+    · simp [hx]
+    · field_simp
+  rw [cfc_mul (fun x : ℝ => x) (fun x : ℝ => x * x⁻¹) A (A.finite_real_spectrum.continuousOn _)
+    (A.finite_real_spectrum.continuousOn _), cfc_id' ℝ A] at h1
+  rw [meSupp_eq_cfc hA]
+  exact h1
+
+theorem meSupp_eq_pinv_mul {A : Matrix ι ι ℂ} (hA : A.IsHermitian) : meSupp A = mePinv A * A := by
+  have hA' : IsSelfAdjoint A := hA
+  have h1 : cfc (fun x : ℝ => x * x⁻¹) A = cfc (fun x : ℝ => x⁻¹ * x) A := by
+    congr 1
+    funext x
+    exact mul_comm _ _
+  rw [cfc_mul (fun x : ℝ => x⁻¹) (fun x : ℝ => x) A (A.finite_real_spectrum.continuousOn _)
+    (A.finite_real_spectrum.continuousOn _), cfc_id' ℝ A] at h1
+  rw [meSupp_eq_cfc hA]
+  exact h1
+
+theorem meSupp_mul_meSupp {A B : Matrix ι ι ℂ} (hA : A.IsHermitian) (hAB : A * B = 0) :
+    meSupp A * meSupp B = 0 := by
+  rw [meSupp_eq_pinv_mul hA]
+  unfold meSupp
+  rw [Matrix.mul_assoc, ← Matrix.mul_assoc A B, hAB, Matrix.zero_mul, Matrix.mul_zero]
+
+/-! ### Two states: tests, contractions and the Helstrom value -/
+
+/-- value of the two-outcome measurement `(E, 1 − E)` -/
+theorem me_two_value (ρ0 ρ1 E : Matrix ι ι ℂ) (p0 p1 : ℝ) :
+    p0 * (ρ0 * E).trace.re + p1 * (ρ1 * (1 - E)).trace.re
+      = p1 * ρ1.trace.re + (((p0 : ℂ) • ρ0 - (p1 : ℂ) • ρ1) * E).trace.re := by
+  rw [Matrix.sub_mul, Matrix.trace_sub, Complex.sub_re, re_trace_smul_mul, re_trace_smul_mul,
+    Matrix.mul_sub, Matrix.mul_one, Matrix.trace_sub, Complex.sub_re]
+  ring
+
+theorem me_half_psd {A : Matrix ι ι ℂ} (hA : A.PosSemidef) : ((1 / 2 : ℂ) • A).PosSemidef := by
+  have := me_psd_smul hA (by norm_num : (0 : ℝ) ≤ 1 / 2)
+  have h2 : (((1 / 2 : ℝ)) : ℂ) = 1 / 2 := by norm_num
+  rwa [h2] at this
+
+theorem me_half_sum (W : Matrix ι ι ℂ) : (1 / 2 : ℂ) • (1 + W) + (1 / 2 : ℂ) • (1 - W) = 1 := by
+  rw [← smul_add]
+  have : (1 + W) + (1 - W) = (2 : ℂ) • (1 : Matrix ι ι ℂ) := by rw [two_smul]; abel
+  rw [this, smul_smul]
+  norm_num
+
+/-- value of the measurement `((1+W)/2, (1−W)/2)` -/
+theorem me_two_value_contraction (ρ0 ρ1 W : Matrix ι ι ℂ) (p0 p1 : ℝ) :
+    p0 * (ρ0 * ((1 / 2 : ℂ) • (1 + W))).trace.re + p1 * (ρ1 * ((1 / 2 : ℂ) • (1 - W))).trace.re
+      = (p0 * ρ0.trace.re + p1 * ρ1.trace.re) / 2
+        + (W * ((p0 : ℂ) • ρ0 - (p1 : ℂ) • ρ1)).trace.re / 2 := by
+  have h : ∀ A B : Matrix ι ι ℂ, (A * ((1 / 2 : ℂ) • B)).trace.re = (A * B).trace.re / 2 := by
+    intro A B
+    rw [Matrix.mul_smul, Matrix.trace_smul, smul_eq_mul]
+    simp; ring
+  have hW : (W * ((p0 : ℂ) • ρ0 - (p1 : ℂ) • ρ1)).trace.re
+      = p0 * (ρ0 * W).trace.re - p1 * (ρ1 * W).trace.re := by
+    rw [Matrix.trace_mul_comm, Matrix.sub_mul, Matrix.trace_sub, Complex.sub_re, re_trace_smul_mul,
+      re_trace_smul_mul]
+  rw [h, h, hW]
+  simp only [Matrix.mul_add, Matrix.mul_sub, Matrix.mul_one, Matrix.trace_add, Matrix.trace_sub,
+    Complex.add_re, Complex.sub_re]
+  ring
+
+/-- a two-outcome POVM is `((1+W)/2, (1−W)/2)` for `W = M₀ − M₁` -/
+theorem me_two_povm_eq (M0 M1 : Matrix ι ι ℂ) (h : M0 + M1 = 1) :
+    M0 = (1 / 2 : ℂ) • (1 + (M0 - M1)) ∧ M1 = (1 / 2 : ℂ) • (1 - (M0 - M1)) := by
+  have e1 : 1 + (M0 - M1) = (2 : ℂ) • M0 := by rw [← h, two_smul]; abel
+  have e2 : 1 - (M0 - M1) = (2 : ℂ) • M1 := by rw [← h, two_smul]; abel
+  rw [e1, e2, smul_smul, smul_smul]
+  norm_num
+
+theorem me_two_contraction (M0 M1 : Matrix ι ι ℂ) (h0 : M0.PosSemidef) (h1 : M1.PosSemidef)
+    (h : M0 + M1 = 1) : (1 - (M0 - M1)).PosSemidef ∧ (1 + (M0 - M1)).PosSemidef := by
+  have e1 : 1 + (M0 - M1) = M0 + M0 := by rw [← h]; abel
+  have e2 : 1 - (M0 - M1) = M1 + M1 := by rw [← h]; abel
+  rw [e1, e2]
+  exact ⟨h1.add h1, h0.add h0⟩
+
+/-! ### Unambiguous discrimination: dependent states, trivial bounds, two states -/
+
+/-- a kernel vector of `G` forces `q_j = 0` wherever its `j`-th component does not vanish -/
+theorem ua_zero_of_kernel (G : Matrix ι ι ℂ) (q : ι → ℝ) (c : ι → ℂ) (hq : ∀ i, 0 ≤ q i)
+    (hG : (G - Matrix.diagonal fun i => (q i : ℂ)).PosSemidef) (hc : G *ᵥ c = 0) (j : ι)
+    (hj : c j ≠ 0) : q j = 0 := by
+  have h := hG.dotProduct_mulVec_nonneg c
+  rw [Matrix.sub_mulVec, hc, zero_sub, dotProduct_neg] at h
+  have h2 : star c ⬝ᵥ ((Matrix.diagonal fun i => (q i : ℂ)) *ᵥ c)
+      = ((∑ i, q i * Complex.normSq (c i) : ℝ) : ℂ) := by
+    simp only [dotProduct, Matrix.mulVec_diagonal, Pi.star_apply, Complex.ofReal_sum,
+      Complex.ofReal_mul]
+    refine Finset.sum_congr rfl fun i _ => ?_
+    rw [Complex.normSq_eq_conj_mul_self]
+    simp only [Complex.star_def]; ring
+  rw [h2, ← Complex.ofReal_neg, Complex.zero_le_real] at h
+  have h3 : ∀ i ∈ Finset.univ, 0 ≤ q i * Complex.normSq (c i) :=
+    fun i _ => mul_nonneg (hq i) (Complex.normSq_nonneg _)
+  have h4 : ∑ i, q i * Complex.normSq (c i) = 0 :=
+    le_antisymm (by linarith) (Finset.sum_nonneg h3)
+  have h5 := (Finset.sum_eq_zero_iff_of_nonneg h3).mp h4 j (Finset.mem_univ j)
+  rcases mul_eq_zero.mp h5 with h6 | h6
+  · exact h6
+  · exact absurd (Complex.normSq_eq_zero.mp h6) hj
+
+/-- `Z = diag p` is dual feasible with value `Σ_i p_i Re G_ii` -/
+theorem ua_trace_mul_diagonal (G : Matrix ι ι ℂ) (p : ι → ℝ) :
+    (G * Matrix.diagonal fun i => (p i : ℂ)).trace.re = ∑ i, p i * (G i i).re := by
+  simp [Matrix.trace, Matrix.mul_diagonal, mul_comm]
+
+theorem ua_diagonal_psd (p : ι → ℝ) (hp : ∀ i, 0 ≤ p i) :
+    (Matrix.diagonal fun i => (p i : ℂ)).PosSemidef :=
+  Matrix.PosSemidef.diagonal fun i => by
+    show (0 : ℂ) ≤ (p i : ℂ)
+    exact_mod_cast hp i
+
+/-- `[[a, b], [conj b, a]]` is PSD for real `a ≥ |b|` -/
+theorem ua_psd_two (a : ℝ) (b : ℂ) (h : ‖b‖ ≤ a) :
+    (!![(a : ℂ), b; (starRingEnd ℂ) b, (a : ℂ)] : Matrix (Fin 2) (Fin 2) ℂ).PosSemidef := by
+  refine Matrix.posSemidef_of_diagDominant ?_ ?_
+  · ext i j
+    fin_cases i <;> fin_cases j <;> simp [Matrix.conjTranspose_apply]
+  · intro i
+    fin_cases i
+    · simpa [Finset.sum_erase, Fin.sum_univ_two] using h
+    · simpa [Finset.sum_erase, Fin.sum_univ_two] using h
+
+/-- `s · conj(s/|s|) = |s|` (with `0/0 = 0`) -/
+theorem ua_mul_conj_phase (s : ℂ) : s * (starRingEnd ℂ) (s / (‖s‖ : ℂ)) = (‖s‖ : ℂ) := by
+  by_cases hs : s = 0
+  · simp [hs]
+  · have hn : (‖s‖ : ℂ) ≠ 0 := by exact_mod_cast (norm_ne_zero_iff.mpr hs)
+    rw [map_div₀, Complex.conj_ofReal, mul_div_assoc', Complex.mul_conj, Complex.normSq_eq_norm_sq]
+    push_cast
+    field_simp
+
+theorem ua_norm_phase_le (s : ℂ) : ‖s / (‖s‖ : ℂ)‖ ≤ 1 := by
+  by_cases hs : s = 0
+  · simp [hs]
+  · rw [norm_div, Complex.norm_real, norm_norm, div_self (norm_ne_zero_iff.mpr hs)]
+
+end GenericExt2
+
+end Toq.Discrim
+
+namespace Toq.Discrim
+
+/-- Cauchy–Schwarz for a `2 × 2` PSD matrix with unit diagonal: `|G₀₁| ≤ 1` -/
+theorem ua_offdiag_le_one (G : Matrix (Fin 2) (Fin 2) ℂ) (hG : G.PosSemidef) (h0 : G 0 0 = 1)
+    (h1 : G 1 1 = 1) : ‖G 0 1‖ ≤ 1 := by
+  have hs10 : G 1 0 = (starRingEnd ℂ) (G 0 1) := (hG.isHermitian.apply 1 0).symm
+  have h := hG.dotProduct_mulVec_nonneg ![G 0 1, -1]
+  have key : star ![G 0 1, -1] ⬝ᵥ (G *ᵥ ![G 0 1, -1]) = ((1 - ‖G 0 1‖ ^ 2 : ℝ) : ℂ) := by
+    simp only [dotProduct, Matrix.mulVec, Fin.sum_univ_two, Pi.star_apply, Matrix.cons_val_zero,
+      Matrix.cons_val_one, h0, h1, hs10, Complex.star_def]
+    push_cast
+    rw [← Complex.conj_mul' (G 0 1)]
+    simp
+    ring
+  rw [key, Complex.zero_le_real] at h
+  have h2 : ‖G 0 1‖ ^ 2 ≤ 1 := by linarith
+  exact (sq_le_one_iff₀ (norm_nonneg _)).mp h2
+
+/-- a Hermitian `2 × 2` matrix with unit diagonal is determined by its `(0, 1)` entry -/
+theorem ua_gram2_eq (G : Matrix (Fin 2) (Fin 2) ℂ) (hG : G.IsHermitian) (h0 : G 0 0 = 1)
+    (h1 : G 1 1 = 1) : G = !![1, G 0 1; (starRingEnd ℂ) (G 0 1), 1] := by
+  have hs10 : G 1 0 = (starRingEnd ℂ) (G 0 1) := (hG.apply 1 0).symm
+  ext i j
+  fin_cases i <;> fin_cases j <;> simp [h0, h1, hs10]
 
 end Toq.Discrim
